@@ -12,7 +12,7 @@ for m in sorted(glob.glob(str(R / "seeded" / "*seed*" / "meta.json"))):
     meta = json.load(open(m))
     pid = meta.get("property", name[:3])
     mm = re.match(r"(C\d+)-(r\d)?seed(\d)", name)
-    rnd = {"": "round1", "r2": "round2", "r3": "round3", "r4": "round4"}.get(mm.group(2) or "", "round1") if mm else "round1"
+    rnd = {"": "round1", "r2": "round2", "r3": "round3", "r4": "round4", "r5": "round5"}.get(mm.group(2) or "", "round1") if mm else "round1"
     key = f"{pid}/{mm.group(3)}" if mm else name
     first = misses.get(rnd, {}).get(key, {}).get("first", "reported")
     summ = (meta.get("summary") or "").replace("|", "/").replace("\n", " ")[:170]
